@@ -11,12 +11,12 @@ for log in sorted(glob.glob("/tmp/mut/batch*.log")):
             continue
         m = re.match(r"(C\d+) exit=(\d+) (\d+) violations", ln)
         if m and cur:
-            sfx = {"b": "-m2", "c": "-m3", "d": "-m4", "e": "-m5", "f": "-m6", "g": "-m7", "h": "-m8", "i": "-m9", "j": "-m10"}.get(cur[-1])
+            sfx = {"b": "-m2", "c": "-m3", "d": "-m4", "e": "-m5", "f": "-m6", "g": "-m7", "h": "-m8", "i": "-m9", "j": "-m10", "k": "-m11"}.get(cur[-1])
             d = os.path.join(V, "seeded", (cur[:-1] + sfx) if sfx else cur + "-m1")
             mp = os.path.join(d, "meta.json")
             if not os.path.isdir(d):
                 continue
-            meta = json.load(open(mp)) if os.path.exists(mp) else dict(property=cur.rstrip("bcdefghij"), origin="sub-agent given only the property text and a scratch worktree",
+            meta = json.load(open(mp)) if os.path.exists(mp) else dict(property=cur.rstrip("bcdefghijk"), origin="sub-agent given only the property text and a scratch worktree",
                                                                         confirmed=dict(how="tools/confirm_mutant.sh in a fresh worktree of /repo HEAD: demo fails with the change, passes without, repository tests pass with it"))
             runs = meta.setdefault("runs", [])
             rec = dict(log=os.path.basename(log), check=m.group(1), tier="quick", exit=int(m.group(2)), violations=int(m.group(3)), detected=m.group(2) == "1")
